@@ -655,8 +655,10 @@ def oracle_c14(rep, scn, replay, obs, root, report, model_obs=None):
         elif op == "flatten":
             if changed:
                 report("flatten-touched-source", i, "source untouched", changed[:10], "flatten changed the source folder")
-            dest = os.path.basename(st.get("dest_path", "")) if st.get("dest_path") else None
             bad = [x for x in aux if not x.startswith("flat")]
+            if st.get("deep_dest"):
+                # destination <aux>/nowhereN/sub/flat with non-existing parents: only that folder and what is below it
+                bad = [x for x in aux if not (x.split("/")[0].startswith("nowhere") and (x.split("/")[1:3] == ["sub", "flat"]))]
             if bad:
                 report("flatten-outside-destination", i, "writes below the destination only", bad[:10], "flatten wrote outside its destination folder")
         elif op == "create":
